@@ -120,8 +120,7 @@ class DispatchingRequestHandler(BaseHTTPRequestHandler):
         if self.server.dispatcher is None:
             # close this connection
             self.close_connection = True  # pylint: disable=attribute-defined-outside-init
-            response_xml_string = 'received a POST request, but have no dispatcher'
-            self.send_response(404, response_xml_string)  # not found
+            self._send_plain_response(404, 'received a GET request, but have no dispatcher')  # not found
             return
 
         try:
